@@ -997,6 +997,16 @@ fn exec_incoming(wd: &mut World, w: &[&str], run: &mut Run, prop: Prop, key: &mu
             wd.junk_since_send += 1;
         }
     }
+    // C08: a KISS packet (stratum 0) is never used as a time answer — read off the parsed header, whatever the reference id
+    if accepted && rec.is_some() && stratum == 0 {
+        run.oracle_fail("c08_stratum0_never_measured", &format!("v={} rid={} ascii={}", version, get("rid"),
+            get("rid").parse::<u32>().map(|r| r.to_be_bytes().is_ascii() as u8).unwrap_or(9)),
+            "an answer with stratum 0 (a KISS packet) yielded measurements");
+    }
+    if rec.is_some() && stratum == 0 && org_match && within && version_ok {
+        let ascii = get("rid").parse::<u32>().map(|r| r.to_be_bytes().is_ascii()).unwrap_or(true);
+        run.hit(if version == 5 { "stratum0-matching-v5" } else if ascii { "stratum0-matching-v34-ascii-refid" } else { "stratum0-matching-v34-nonascii-refid" });
+    }
     if accepted {
         wd.meas_since_send += 1;
     }
@@ -1569,7 +1579,15 @@ fn gen_incoming(rng: &mut Rng, g: &GenCfg, prop: Prop, since_timer_ns: &mut u64)
     let mut an = 0;
     if kiss {
         stratum = 0;
-        rid = *rng.pick(&[KISS_DENY, KISS_RATE, KISS_RATE, KISS_RSTR, KISS_NTSN, u32::from_be_bytes(*b"XXXX")]);
+        // reference id of a stratum-0 answer: the known kiss codes (half), four random ASCII letters, four random bytes
+        // with at least one >= 0x80, an IPv4-looking id, all-zero — it is a KISS packet whatever the id looks like
+        rid = match rng.below(12) {
+            0..=5 => *rng.pick(&[KISS_DENY, KISS_RATE, KISS_RATE, KISS_RSTR, KISS_NTSN, u32::from_be_bytes(*b"XXXX")]),
+            6 | 7 => u32::from_be_bytes([b'A' + rng.below(26) as u8, b'A' + rng.below(26) as u8, b'A' + rng.below(26) as u8, b'A' + rng.below(26) as u8]),
+            8 | 9 => (rng.next_u64() as u32) | (0x80u32 << (8 * rng.below(4) as u32)),
+            10 => *rng.pick(&[0xc0a8_0001u32, 0x0a00_0001, 0x7f00_0001, 0xac10_fe01]),
+            _ => 0,
+        };
         if rng.chance(1, 3) {
             an = 1;
         }
